@@ -13,6 +13,8 @@ import (
 )
 
 type Exec struct {
+	structSel map[*SExpr]bool // contract selections of struct-typed fields (static property of the expression)
+	headVals map[*ssa.Phi]Value // at a back edge: the values the iteration started with (x$head)
 	P        *Program
 	C        *Contracts
 	fn       *ssa.Function
@@ -664,6 +666,9 @@ func (e *Exec) enterLoop(li *loopInfo, in *State) *State {
 	for k, cl := range ls.Invariants {
 		e.invObligations(env, cl, k, li, "entry", in, li.header.Instrs[0].Pos())
 	}
+	for k, cl := range ls.Starts {
+		e.invObligations(env, cl, k, li, "starts", in, li.header.Instrs[0].Pos())
+	}
 	// havoc
 	st := in.clone()
 	ws := e.loopWriteSet(li)
@@ -696,6 +701,25 @@ func (e *Exec) enterLoop(li *loopInfo, in *State) *State {
 		li.decr = e.scalarOf(v)
 	}
 	return st
+}
+
+// loopPos: a source position for obligations about the loop as a whole
+func (e *Exec) loopPos(li *loopInfo) token.Pos {
+	for _, ins := range li.header.Instrs {
+		if ins.Pos().IsValid() {
+			return ins.Pos()
+		}
+	}
+	for _, b := range e.fn.Blocks {
+		if b.Idom() == li.header || b == li.header {
+			for _, ins := range b.Instrs {
+				if ins.Pos().IsValid() {
+					return ins.Pos()
+				}
+			}
+		}
+	}
+	return e.fn.Pos()
 }
 
 func phiName(phi *ssa.Phi) string {
@@ -741,6 +765,13 @@ func (e *Exec) closeLoop(li *loopInfo, from *ssa.BasicBlock, st *State) {
 	env.block = li.header
 	for k, cl := range ls.Invariants {
 		e.invObligations(env, cl, k, li, "step", st, from.Instrs[len(from.Instrs)-1].Pos())
+	}
+	if len(ls.Steps) > 0 {
+		e.headVals = saved
+		for k, cl := range ls.Steps {
+			e.invObligations(env, cl, k, li, "advances", st, e.loopPos(li))
+		}
+		e.headVals = nil
 	}
 	for _, k := range sortedKeys(st.ghost) {
 		v := st.ghost[k]
